@@ -6,7 +6,7 @@ import signal
 import types
 
 from .. import tlc
-from ..core import MachineryError
+from ..core import MachineryError, pmap
 
 IT = {"L12": "[1 2]", "L0": "[]", "Ra": "(range a)"}
 CO = {"T": "True", "F": "False", "odd-a": "(% a 2)", "odd-b": "(% b 2)"}
@@ -157,6 +157,13 @@ def compare(head, rec, got, want):
     return None
 
 
+def _one(job):
+    head, scope, sp, rec = job
+    st = {}
+    got = run_program(render_program(head, rec, sp, scope), st)
+    return got, st
+
+
 def main(run):
     rng = random.Random(run.seed)
     q = run.quick
@@ -170,7 +177,7 @@ def main(run):
     rows = r.ex("PROG")
     run.log(f"TLC: {len(rows)} specified programs")
     heads = {"seq": ["lfor", "sfor", "gfor"], "dict": ["dfor"], "for": ["for"]}
-    budget = 7000 if q else 150000
+    budget = 14000 if q else 200000
     # all short programs, a sample of the long ones
     rows.sort(key=lambda x: (len(x["cl"]), json.dumps(x, sort_keys=True)))
     ns = 1 if q else 2
@@ -181,9 +188,10 @@ def main(run):
     done = 0
     strategies = {"native": 0, "function": 0}
     scopes_seen = {"module": 0, "fn": 0, "class": 0}
+    jobs = []
     for rec in ordered:
         is_short = len(rec["cl"]) <= ns
-        if done >= budget and not is_short:
+        if len(jobs) >= budget and not is_short:
             break
         variants = []
         for head in heads[rec["kind"]]:
@@ -199,23 +207,23 @@ def main(run):
             rng.shuffle(extra)
             variants = (keep if is_short else rng.sample(keep, min(len(keep), 2))) + extra[:3 if is_short else 2]
         for head, scope, sp in variants:
-            text = render_program(head, rec, sp, scope)
-            st = {}
-            got = run_program(text, st)
-            want = expected(head, rec)
-            key = f"{head}:{scope}:{sp}:{json.dumps([rec['cl'], rec['fin']])}"
-            run.case(key)
-            done += 1
-            if "native" in st and head != "for":
-                strategies["native" if st["native"] else "function"] += 1
-            scopes_seen[scope] += 1
-            diff = compare(head, rec, got, want)
-            if diff:
-                run.violation(key, f"{head} in {scope} scope (statement at position {sp}): {diff}; program:\n{text}",
-                              {"program": text, "head": head, "scope": scope, "stmtpos": sp, "spec": rec,
-                               "got": {k: repr(v) for k, v in got.items()}, "want": {k: repr(v) for k, v in want.items()}})
-            else:
-                run.cov["traces_validated_against_impl"] += 1
+            jobs.append((head, scope, sp, rec))
+    for (head, scope, sp, rec), (got, st) in zip(jobs, pmap(_one, jobs)):
+        text = render_program(head, rec, sp, scope)
+        want = expected(head, rec)
+        key = f"{head}:{scope}:{sp}:{json.dumps([rec['cl'], rec['fin']])}"
+        run.case(key)
+        done += 1
+        if "native" in st and head != "for":
+            strategies["native" if st["native"] else "function"] += 1
+        scopes_seen[scope] += 1
+        diff = compare(head, rec, got, want)
+        if diff:
+            run.violation(key, f"{head} in {scope} scope (statement at position {sp}): {diff}; program:\n{text}",
+                          {"program": text, "head": head, "scope": scope, "stmtpos": sp, "spec": rec,
+                           "got": {k: repr(v) for k, v in got.items()}, "want": {k: repr(v) for k, v in want.items()}})
+        else:
+            run.cov["traces_validated_against_impl"] += 1
     if min(strategies.values()) == 0 or min(scopes_seen.values()) == 0:
         raise MachineryError(f"vacuous: strategies {strategies}, scopes {scopes_seen}")
     run.sample({"program": render_program("lfor", ordered[len(short) // 2], 0, "fn"), "spec": ordered[len(short) // 2]})
